@@ -8,7 +8,8 @@
 //!   hold:  lock and HOLD the guard, let the assembler run on, note how far it gets, check the guarded buffer did not change, unlock.
 //! Every event is printed as one line; lib/c08.py / c09.py replay the lines on the Lean model (driver stream `conc`).
 
-use dynasmrt::{Assembler, DynasmApi, x64::X64Relocation, Executor, AssemblyOffset};
+use dynasmrt::{Assembler, DynasmApi, DynasmLabelApi, x64::X64Relocation, Executor, AssemblyOffset};
+use dynasmrt::relocations::Relocation;
 use std::sync::{Arc, Mutex, Condvar, mpsc};
 use std::sync::atomic::{AtomicUsize, AtomicBool, Ordering};
 use std::time::Duration;
@@ -50,6 +51,9 @@ fn versions() -> Vec<Vec<u8>> {
     cur.extend((0..5000usize).map(|i| (i % 251) as u8));
     v.push(cur.clone());
     for (i, b) in [0x11u8, 0x22, 0x33, 0x44].iter().enumerate() { cur[4 + i] = *b; }
+    v.push(cur.clone());
+    // the failing alter session: its bytes are in the buffer, its reference has no definition
+    for (i, b) in [0x55u8, 0x66, 0x77, 0x88].iter().enumerate() { cur[8 + i] = *b; }
     v.push(cur.clone());
     cur.extend([0xC0u8, 0xC1, 0xC2, 0xC3, 0xC4, 0xC5, 0xC6, 0xC7]);
     v.push(cur.clone());
@@ -130,6 +134,14 @@ pub fn run(park_index: usize, mode: &str) {
             boundary("commit", &reader2);
             ops.alter(|m| { m.goto(AssemblyOffset(4)); for b in [0x11u8, 0x22, 0x33, 0x44] { m.push(b); } }).unwrap();
             boundary("alter", &reader2);
+            // an alter session that FAILS (a reference without definition): same lock / protection steps, an error result
+            let failed = ops.alter(|m| {
+                m.goto(AssemblyOffset(8));
+                for b in [0x55u8, 0x66, 0x77, 0x88] { m.push(b); }
+                m.global_relocation("verif_undefined", 0, 4, 0, X64Relocation::from_encoding((4,)));
+            });
+            if failed.is_ok() { out.lock().unwrap().push("alter-did-not-fail".into()); }
+            boundary("alter-failed", &reader2);
             for b in [0xC0u8, 0xC1, 0xC2, 0xC3, 0xC4, 0xC5, 0xC6, 0xC7] { ops.push(b); }
             ops.commit().unwrap();
             boundary("commit", &reader2);
